@@ -20,6 +20,9 @@ class ConstControlT {
 	template <typename, typename>
 	friend struct QueryWrapperT;
 
+	template <typename, typename, Prong, typename...>
+	friend struct OS_;
+
 protected:
 	using Context			= typename TArgs::Context;
 
